@@ -257,8 +257,19 @@ def gen_pool(r):
     attr_q = [r.choice([0.02, 0.005, 0.002]), r.choice([-10, 0, 100])]  # fine output steps: the two GELU flavours differ by < 1e-3
     share_alpha = r.choice([0.1, 0.2, 0.3, attr_q[0]])
     for k in range(r.choice([3, 4, 5])):
-        style = r.choice(["lut", "lut", "conv", "generated", "generated", "branchy", "branchy", "lut_attr", "lut_attr", "lut_attr", "lut_attr", "cpu_ops", "cpu_ops", "scale_share", "scale_share"])
-        if style == "scale_share":
+        style = r.choice(["lut", "lut", "conv", "generated", "generated", "branchy", "branchy", "lut_attr", "lut_attr", "lut_attr", "lut_attr", "cpu_ops", "cpu_ops", "scale_share", "scale_share", "deep"])
+        if style == "deep":
+            # several hundred operators in a row: compiles with the recursion limit the entry points set for themselves, not with a
+            # smaller one left behind by an earlier command line
+            n_ = 600
+            layers = []
+            for i_ in range(n_):
+                if i_ % 2:
+                    layers.append(dict(op="RELU", seed=i_, **{"in": [i_]}))
+                else:
+                    layers.append(dict(op="ADD", act="NONE", q=[0.05, 3], const=dict(shape=[1, 1, 1, 4], q=[0.05, 0]), swap=False, seed=i_, **{"in": [i_]}))
+            rec = dict(name="net", inputs=[dict(shape=[1, 2, 2, 4], dtype="int8", q=[0.05, 3])], layers=layers, outputs=[n_], dup_names=False, note="deep")
+        elif style == "scale_share":
             # different operators of different models reach the compiler's scale arithmetic with the SAME numbers (input scale, a second
             # factor, output scale) - as tensor scales (float32), as attributes, as constants: whatever is memoised on such numbers must
             # not depend on which operator asked first
@@ -395,6 +406,7 @@ OPTION_POOL = [
     ["--accelerator-config", "ethos-u55-64", "--tensor-allocator", "Greedy"],
     ["--accelerator-config", "ethos-u65-256", "--tensor-allocator", "LinearAlloc", "--arena-cache-size", "40000"],
     ["--accelerator-config", "ethos-u55-256", "--enable-debug-db"],
+    ["--recursion-limit", "1000"],  # (process-wide interpreter setting chosen on the command line)
 ]
 
 
@@ -439,6 +451,8 @@ class C14(check.Check):
                 o = 0 if e != "main" else r.choice([0, 0] + list(range(1, len(OPTION_POOL))))
                 steps.append(dict(k="compile", m=m, o=o, e=e))
             elif x < 0.8:
+                if pool[m].get("note") == "deep":
+                    m = (m + 1) % len(pool)  # (tracing every call of a 600-operator compilation costs more than the whole rest of the case)
                 steps.append(dict(k="fault", m=m, o=r.choice([0, 1, 2]), e="main", frac=round(r.random(), 4)))
             elif x < 0.86:
                 steps.append(dict(k="io_fault", m=m, o=0, kind=r.choice(["outdir_is_file", "outdir_readonly"])))
@@ -448,6 +462,11 @@ class C14(check.Check):
                 steps.append(dict(k="gc"))
         if not any(s_["k"] == "compile" for s_ in steps[1:]):
             steps.append(dict(k="compile", m=r.randrange(len(pool)), o=0, e=r.choice(["main", "convert", "convert_bytes"])))
+        deep = [k_ for k_, rec_ in enumerate(pool) if rec_.get("note") == "deep"]
+        if deep and r.random() < 0.5:
+            # a command line with its own interpreter settings, then the deep model through an entry point that has none
+            steps.append(dict(k="compile", m=r.randrange(len(pool)), o=len(OPTION_POOL) - 1, e="main"))
+            steps.append(dict(k="compile", m=deep[0], o=0, e=r.choice(["convert", "convert_bytes"])))
         return dict(pool=pool, steps=steps)
 
     def case_layers(self, desc):
@@ -468,12 +487,13 @@ class C14(check.Check):
         try:
             # single-copy reference: every distinct compilation alone, in a fresh fork of this pristine process
             golden = {}
+            need_calls = set((s_["m"], s_["o"], s_["e"]) for s_ in desc["steps"] if s_["k"] == "fault")  # (call counting traces every call)
             for s_ in desc["steps"]:
                 if s_["k"] in ("compile", "fault"):
                     key = (s_["m"], s_["o"], s_["e"])
                     if key not in golden:
                         golden[key] = in_grandchild(one_compile, srcs[s_["m"]], "net", OPTION_POOL[s_["o"]], s_["e"],
-                                                    os.path.join(wd, "g"), None, True)
+                                                    os.path.join(wd, "g"), None, key in need_calls)
                         out["evaluations"] += 1
             # entry points agree on the option set they share
             for m in set(k[0] for k in golden):
